@@ -112,6 +112,13 @@ def correspond(ctx):
                 lines = ca.range_protocols(protocols=req_text(pt), platform=plat, protocol_nr=pn)
                 return [ca.Ace(ln, platform=plat).protocol.number for ln in lines]
             cases.append(Case(f"run_range_protocols {req_coq(pt)}", outcome(runp), meta3))
+            # the same request on a template line with addresses, options and a sequence number: every generated
+            # line differs from the template in the protocol only
+            tline = proto_template(rnd, plat)
+            meta4 = dict(meta3, k="protocols_template", line=tline, protocol_nr=pn)
+            f = proto_template_check(ca, meta4)
+            if f:
+                raise core.ImplViolation(dict(kind="input", kernel="K-range", input=meta4, failure=f))
     ctx.samples += [cases[0].meta, cases[1].meta, cases[-1].meta]
     ctx.coverage["distinct_nontrivial"] = len(nontrivial)
     from collections import Counter
@@ -121,8 +128,51 @@ def correspond(ctx):
                                      "run.RunPorts", "run.RunRange"], cases, chunk=100)
 
 
+OPTION_WORDS = ["log", "log-input", "dscp ef", "fragments", "time-range work", "ttl eq 5", "precedence critical",
+                "tos 3", "dscp af11 log", "established", "ack", "syn log"]
+
+
+def proto_template(rnd, plat):
+    seq = rnd.choice(["", "", "10 ", "4294967295 "])
+    addr = lambda: rnd.choice(["any", "host 10.0.0.1", "10.0.0.0 0.0.0.255" if plat == "ios" else "10.0.0.0/24",
+                               "10.1.0.0 0.0.255.3" if plat == "ios" else "10.1.0.0 0.0.255.3"])
+    opt = rnd.choice(["", "", ""] + OPTION_WORDS)
+    return f"{seq}{rnd.choice(['permit', 'deny'])} ip {addr()} {addr()}{' ' + opt if opt else ''}"
+
+
+def proto_template_check(ca, meta):
+    plat, line = meta["platform"], meta["line"]
+    try:
+        tmpl = ca.Ace(line, platform=plat, protocol_nr=meta["protocol_nr"])
+    except Exception:  # noqa
+        return None
+    try:
+        lines = ca.range_protocols(protocols=meta["request"], line=line, platform=plat, protocol_nr=meta["protocol_nr"])
+    except ValueError:
+        return None
+    except Exception as ex:  # noqa
+        return {"what": f"range_protocols raised {type(ex).__name__}: {ex}"}
+    want = acegen.obs_ace(tmpl)
+    words = tmpl.line.split()
+    for ln in lines:
+        try:
+            a = ca.Ace(ln, platform=plat, protocol_nr=meta["protocol_nr"])
+        except Exception as ex:  # noqa
+            return {"what": f"generated line {ln!r} is not valid for {plat}: {ex}"}
+        got = acegen.obs_ace(a)
+        if got[:1] + got[2:] != want[:1] + want[2:] or a.sequence != tmpl.sequence:
+            return {"what": f"line {ln!r} generated from template {line!r} differs from it in a field other than the protocol"}
+        w = ln.split()
+        i = 2 if tmpl.sequence else 1
+        if len(w) != len(words) or w[:i] + w[i + 1:] != words[:i] + words[i + 1:]:
+            return {"what": f"line {ln!r} generated from template {line!r} differs from it in a word other than the protocol"}
+    return None
+
+
 def oracle(ctx, kernel, meta):
     ca = core.impl_module()
+    if meta["k"] == "protocols_template":
+        return proto_template_check(ca, meta)
     if meta["k"] != "range_ports":
         return None
     top = meta["template_op"]
